@@ -6,6 +6,7 @@ import Resgate.Model.Http
 import Resgate.Model.Throttle
 import Resgate.Gw.Run
 import Resgate.Model.Encode
+import Resgate.Model.HttpDispatch
 import Resgate.Model.Svc
 import Resgate.Model.Nats
 
@@ -266,6 +267,19 @@ def evalLine (line : String) : String :=
     match unhex p, unhex q, unhex pre with
     | some pb, some qb, some preb => hex (Enc.pathToRID pb qb preb)
     | _, _, _ => "bad-op"
+  | ["httpdispatch", m, p, q, pre, mp] =>
+    match unhex m, unhex p, unhex q, unhex pre with
+    | some mb, some pb, some qb, some preb =>
+      let mapped := if mp == "-" then some none else (unhex mp).map some
+      match mapped with
+      | none => "bad-op"
+      | some mo =>
+        match Enc.httpDispatch mb pb qb preb mo with
+        | .notFound => "404"
+        | .methodNotAllowed => "405"
+        | .get rid => let nq := parseRID rid; "get " ++ hex nq.1 ++ " " ++ hex nq.2
+        | .call rid a => let nq := parseRID rid; "call " ++ hex nq.1 ++ " " ++ hex nq.2 ++ " " ++ hex a
+    | _, _, _, _ => "bad-op"
   | ["pathaction", p, q, pre] =>
     match unhex p, unhex q, unhex pre with
     | some pb, some qb, some preb =>
